@@ -178,8 +178,14 @@ class GarbageCollector:
 
         try:
             markers = self.storage.list_files(INFLIGHT_PATH)
-        except Exception:
-            markers = []
+        except Exception as e:
+            # Without the marker listing it is unknown which unreferenced files
+            # belong to transactions in flight: treating the failure as "no
+            # markers" would delete them. Fail closed.
+            raise GarbageCollectionAborted(
+                f"Aborting GC: cannot list in-flight markers under {INFLIGHT_PATH}: {e}. "
+                f"Nothing was deleted."
+            ) from e
 
         for marker_path in markers:
             norm_marker = self._normalize_path(marker_path)
@@ -192,10 +198,10 @@ class GarbageCollector:
             basename = norm_marker.rsplit("/", 1)[-1]
             if not basename.endswith(".inflight"):
                 continue
-            data_rel = self._marker_target(norm_marker, basename)
+            targets = self._marker_targets(norm_marker, basename)
 
             if age_ok:
-                protected.add(data_rel)
+                protected.update(targets)
             else:
                 logger.warning(
                     f"Removing abandoned in-flight marker {norm_marker} "
@@ -206,27 +212,33 @@ class GarbageCollector:
                 except Exception as e:
                     logger.warning(f"Failed to delete stale marker {norm_marker}: {e}")
                     # Could not remove the marker -> keep protecting its file
-                    protected.add(data_rel)
+                    protected.update(targets)
 
         return protected
 
-    def _marker_target(self, marker_path: str, basename: str) -> str:
-        """Resolve which file a marker protects.
+    def _marker_targets(self, marker_path: str, basename: str) -> Set[str]:
+        """Resolve which file(s) a marker protects.
 
         The marker's payload names the protected path explicitly (it may be a
         data file, a manifest, or a manifest list). Markers written by older
         versions carry no payload; for those the historical convention -
         "<data file basename>.inflight" under data/ - is assumed.
+
+        A payload that cannot be read or parsed leaves the target's directory
+        unknown, so the name is protected in BOTH directories a marker can
+        point into (fail closed): assuming data/ alone would silently drop the
+        protection of a manifest or manifest list of a commit in progress.
         """
-        fallback = f"data/{basename[: -len('.inflight')]}"
+        name = basename[: -len('.inflight')]
+        legacy = {f"data/{name}"}
         try:
             payload = json.loads(self.storage.read_file(marker_path).decode("utf-8"))
-            target = payload.get("file_path")
         except Exception:
-            return fallback
+            return {f"data/{name}", f"{self.file_manager.manifests_path}/{name}"}
+        target = payload.get("file_path") if isinstance(payload, dict) else None
         if not isinstance(target, str) or not target:
-            return fallback
-        return self._normalize_path(target)
+            return legacy
+        return {self._normalize_path(target)}
 
     def _gc_prefix(self, prefix: str, reachable_set: Set[str], grace_period_ms: int) -> int:
         """Garbage collect files in a specific prefix."""
